@@ -4,7 +4,7 @@ B-cap-lit (heapless String::from("literal") with a literal that fits)."""
 import re
 
 from . import hirq as H
-from .oblig_mono import hir_fn_for, node_at
+from .oblig_mono import hir_fn_for, node_at, nodes_covering
 
 DERIVE_SER = ("derive:Serialize", "derive:SerializeIndexed", "derive:Serialize_repr")
 
@@ -48,6 +48,20 @@ def discharge(F, inst, ev, kind):
             if enum_casts and len(enum_casts) == len(casts):
                 return "B-enum-cast", "rustc's lowering of `<fieldless enum> as %s` (discriminant arithmetic on valid variants cannot overflow)" % enum_casts[0]["ty"]
         return None, "integer addition that is not a derive-generated member counter"
+    if kind in ("assert:overflow:Shr", "assert:overflow:Shl"):
+        at = [x for x in node_at(fn, ev["sp"]) if x.get("k") in ("binary", "assignop") and x.get("op") in (">>", "<<", ">>=", "<<=")]
+        if len(at) == 1:
+            amt = H.lit(at[0]["r"])
+            ty = (at[0].get("l") or {}).get("ty") or at[0].get("ty") or ""
+            bits = {"u8": 8, "i8": 8, "u16": 16, "i16": 16, "u32": 32, "i32": 32, "u64": 64, "i64": 64, "u128": 128, "i128": 128, "usize": 32, "isize": 32}.get(ty)
+            if isinstance(amt, int) and not isinstance(amt, bool) and bits is not None and 0 <= amt < bits:
+                return "B-shift-lit", "shift by the literal %d, smaller than the %d bits of %s" % (amt, bits, ty)
+        return None, "shift amount is not a literal smaller than the operand width"
+    if kind in ("call:core::ops::index::Index::index", "call:core::ops::index::IndexMut::index_mut"):
+        at = nodes_covering(fn, ev["sp"], ("index",))[:1]
+        if len(at) == 1 and at[0].get("idx_ty") in ("core::ops::RangeFull", "core::ops::range::RangeFull"):
+            return "B-full-range", "indexing with `..` (RangeFull) cannot be out of bounds"
+        return None, "no discharge rule for an index that is not the full range"
     if kind == "call:core::convert::From::from" or kind.startswith("dep-api:<heapless::string::String<N> as core::convert::From<&'a str>>::from"):
         nodes = [x for x in node_at(fn, ev["sp"]) if x.get("k") in ("call", "mcall") and x.get("callee") in ("core::convert::From::from", "core::convert::Into::into")]
         if len(nodes) == 1:
